@@ -5,7 +5,7 @@ from vf.lazy import libx, common
 from vf.monitors import algos, large
 
 PROP = "C08"
-TECHNIQUE = ('runtime monitoring of BioConsert (JIT, bounds-checked JIT, interpreted kernels with anchor coverage and strict-index arrays): every single-element move of every returned ranking priced by the reference table; best single move on 63-1025 elements / 300 x 120 datasets by a vectorised reference; search again after an in-place mutation')
+TECHNIQUE = ('runtime monitoring of BioConsert (JIT, bounds-checked JIT, interpreted kernels with anchor coverage and strict-index arrays): every single-element move of every returned ranking priced by the reference table; best single move on 63-1025 elements / 300 x 120 datasets by a vectorised reference; search again after an in-place mutation; both values of return_at_most_one_ranking; the bench_mode route')
 RULE = ("cases = dataset (D2-D4, D9, D10, D11, Markov-like perturbations; several multi-element buckets; n<=10, few n=16) "
         "x scheme (S1-S3, scaled, and S8 threshold-scale penalties k*2^-12..k*2^-8 crossing the 0.001 threshold from both "
         "sides) x configuration (BioConsert without starters, with [Borda] / [Copeland,KwikSort] / [PickAPerm], BioCo), all "
